@@ -296,10 +296,6 @@ func genCohortMember(t *rapid.T, d D) D {
 	return co[ir(t, 0, len(co)-1, "member")]
 }
 
-func genMode(t *rapid.T) d128.RoundingMode {
-	return ref.Modes[ir(t, 0, 5, "mode")]
-}
-
 // genNear draws an integer near one of the given pivots (within ±w) or exactly
 // pivot+{-1,0,1}: the "threshold window" class of DESIGN §4.
 func genNear(t *rapid.T, w int, pivots ...int) int {
@@ -308,10 +304,6 @@ func genNear(t *rapid.T, w int, pivots ...int) int {
 		return p + ir(t, -1, 1, "d1")
 	}
 	return p + ir(t, -w, w, "dw")
-}
-
-func describe(d D) string {
-	return d.Num().String()
 }
 
 // abbr shortens long digit strings for samples and messages.
